@@ -7,6 +7,7 @@ package verifharness
 
 import (
 	"fmt"
+	"sort"
 	"strings"
 	"testing"
 
@@ -124,6 +125,65 @@ func (g *c06Gen) genReg(targetChain string) {
 		parts = append(parts, hxs(c))
 	}
 	g.run(strings.Join(parts, " "))
+}
+
+// a relayer registered for several chains in NON-sorted order with pairwise different counterparty
+// addresses, followed by a receive from each of its chains: Chains[i] / Addresses[i] must stay paired
+func (g *c06Gen) genMultichain() {
+	r := g.r
+	pool := []string{c06S, "nocl"}
+	var tssChains []string
+	for _, c := range []string{"tss-a", "tss-b", "tss-up"} {
+		if _, ok := g.tss[c]; ok {
+			tssChains = append(tssChains, c)
+		}
+	}
+	pool = append(pool, tssChains...)
+	perm := r.Rng.Perm(len(pool))
+	k := 2 + r.Rng.Intn(len(pool)-1)
+	chains := []string{}
+	for _, i := range perm[:k] {
+		chains = append(chains, pool[i])
+	}
+	if !c06Contains(chains, c06S) {
+		chains[0] = c06S
+	}
+	if sort.StringsAreSorted(chains) {
+		for i, j := 0, len(chains)-1; i < j; i, j = i+1, j-1 {
+			chains[i], chains[j] = chains[j], chains[i]
+		}
+	}
+	distinct := []string{"0xAbCdEf0000000000000000000000000000000001", "0xabcdef0000000000000000000000000000000002", "relayer-X", "0xfee0000000000000000000000000000000000003", "bsc-side-address"}
+	ap := r.Rng.Perm(len(distinct))
+	addrs := []string{}
+	for i := range chains {
+		addrs = append(addrs, distinct[ap[i]])
+	}
+	// the signer: the TSS account of one of the listed TSS chains if there is one (so that this chain accepts it too)
+	a := c06Accts[r.Rng.Intn(c06NAcct-1)]
+	raw, canon := a.lower, a.lower
+	for _, c := range chains {
+		if t, ok := g.tss[c]; ok {
+			raw, canon = t, strings.ToLower(t)
+			break
+		}
+	}
+	parts := []string{"reg", "1", hxs(raw), fmt.Sprint(len(chains))}
+	for _, c := range chains {
+		parts = append(parts, hxs(c))
+	}
+	parts = append(parts, fmt.Sprint(len(addrs)))
+	for _, c := range addrs {
+		parts = append(parts, hxs(c))
+	}
+	g.run(strings.Join(parts, " "))
+	for _, i := range r.Rng.Perm(len(chains)) {
+		g.genRecv(raw, canon, chains[i], true)
+		g.run(fmt.Sprintf("q %s %s %s", hxs(chains[i]), hxs(raw), hxs(strings.ToUpper(addrs[i]))))
+	}
+	if r.Rng.Intn(2) == 0 { // payout side: an acknowledgement naming one of these addresses
+		g.genAck(raw, canon, chains[r.Rng.Intn(len(chains))], true)
+	}
 }
 
 func c06B(b bool) string {
@@ -259,7 +319,13 @@ func (g *c06Gen) history(steps int, sweep bool) {
 	for i := 0; i < n; i++ {
 		g.genReg(g.pick(c06Chains))
 	}
+	if r.Rng.Intn(2) == 0 {
+		g.genMultichain()
+	}
 	for i := 0; i < steps; i++ {
+		if r.Rng.Intn(40) == 0 {
+			g.genMultichain()
+		}
 		chain := g.pick(c06Chains)
 		if r.Rng.Intn(3) > 0 {
 			chain = g.pick(c06Chains[:4])
